@@ -1,4 +1,5 @@
-"""C02 — validity. Layer A/N theorems (Props/C02) + network runs with decision-validity oracle."""
+"""C02 — validity. Layer A/N theorems, Layer B refinement (validity_model: a decision of the executable model of
+gpbft.go is a non-empty prefix of an honest input) + network runs with decision-validity oracle."""
 from checks import gpbft_common as g
 
 
@@ -7,7 +8,9 @@ def run(ctx):
     g.network(ctx, "C02-")
     return ctx.finish(
         rule=g.RULE + " Oracle C02: every decision is non-bottom, starts at the base, and is a prefix of an honest input.",
-        trusted_base=g.TRUSTED,
+        trusted_base=g.TRUSTED + [
+            "validity_model's hypotheses about the environment: delivered messages satisfy F3.Instance.MsgValid (shape half "
+            "re-checked by the driver on every delivered message, existence half = signature verification, C05); no internal error"],
         assumptions=["signature unforgeability", "faulty members hold < 1/3 of scaled power",
                      "second sentence (unanimous + synchronous => that chain decided) is validated in sync-mode runs "
                      "(C06 oracle) and not a theorem (real-time bound)"],
